@@ -1499,6 +1499,16 @@ impl Hasher {
         self.update_with_join::<join::RayonJoin>(input)
     }
 
+    /// Verification hook: `update` with the scripted `Join` of `join::verif` (see there).
+    /// Returns the number of splits the recursion took.
+    #[cfg(all(blake3_team_blake3_verif, feature = "std"))]
+    #[doc(hidden)]
+    pub fn verif_update_scripted(&mut self, input: &[u8], script: &[u8]) -> usize {
+        join::verif::set_script(script);
+        self.update_with_join::<join::verif::ScriptedJoin>(input);
+        join::verif::splits_taken()
+    }
+
     /// As [`update`](Hasher::update), but reading the contents of a file using memory mapping.
     ///
     /// Not all files can be memory mapped, and memory mapping small files can be slower than
